@@ -336,12 +336,22 @@ def make_reader(api, src, to, filt, plan=None, issues=None):
         kw["issue_tracker"] = tr
         if issues is not None:
             issues[to] = tr.issues
+    pos = plan.get("positional", 0)
     if api == "parse_blocks":
-        return parse_blocks(iter([list(r) for r in src]), to=to, filter=filt, **kw)
+        # the caller's own row lists are handed over (not copies): they must be unchanged afterwards.
+        # Positional calls follow the documented parameter order (cell_rows, location_sheet, to, filter, …)
+        if pos >= 4:
+            return parse_blocks(iter(src), None, to, filt, **kw)
+        if pos == 3:
+            return parse_blocks(iter(src), None, to, filter=filt, **kw)
+        return parse_blocks(iter(src), to=to, filter=filt, **kw)
     if api == "read_csv":
         if plan.get("origin") and not plan.get("path"):
             kw["origin"] = plan["origin"]
-        return read_csv(src if plan.get("path") else io.StringIO(src), sep=plan.get("sep", SEP), to=to, filter=filt, **kw)
+        source = src if plan.get("path") else io.StringIO(src)
+        if pos:                                           # (source, sep) are the positional parameters of read_csv
+            return read_csv(source, plan.get("sep", SEP), to=to, filter=filt, **kw)
+        return read_csv(source, sep=plan.get("sep", SEP), to=to, filter=filt, **kw)
     return read_excel(src, to=to, filter=filt, **kw)
 
 
@@ -403,6 +413,20 @@ def locale_encoding():
     return locale.getpreferredencoding(False)
 
 
+def shorten_rows(rng, rows, tables):
+    """cut one or two data rows of row-wise tables short (fewer cells than column names): a defect a fixer that does not
+    stop on errors repairs by padding — in its own copy, never in the caller's rows; -> number of rows cut"""
+    cut = 0
+    for start, n, _name, units in tables:
+        if not units or len(units) < 2 or str(rows[start][0]).endswith("*") or n <= 4:
+            continue
+        for ri in rng.sample(range(start + 4, start + n), min(2, n - 4)):
+            if rng.random() < 0.9 and len(rows[ri]) >= 2:
+                del rows[ri][len(units) - rng.randint(1, len(units) - 1):]
+                cut += 1
+    return cut
+
+
 def gen_plan(rng):
     r = rng.random()
     order = list(FORMS)
@@ -417,6 +441,8 @@ def gen_plan(rng):
     if rng.random() < 0.4:
         plan["fixer"] = {"strict_types": rng.random() < 0.4, "stop": rng.random() < 0.6,
                          "as": rng.choice(["class", "instance"])}
+    if rng.random() < 0.3:
+        plan["positional"] = rng.choice([3, 4])   # `to` (and `filter`) passed positionally, in the documented order
     if rng.random() < 0.12:
         plan["tracker"] = "collecting"            # an issue tracker that records instead of raising
     if rng.random() < 0.3:
@@ -691,7 +717,14 @@ def check_unknown_form(out, case, rows, text, xlsx, to, ops=None, pend=None, rng
     case = dict(case, given=given)
     out.count("unknown form probed with: " + ("+".join(given) or "no other argument"))
     rec = RecordingIter([list(r) for r in rows])
-    trials = [("parse_blocks", lambda: parse_blocks(rec, to=to, **kw), lambda: rec.calls)]
+    positional = rng is not None and rng.random() < 0.4
+    if positional:
+        given.append("positional to")
+        case = dict(case, given=given)
+        kwp = {k: v for k, v in kw.items() if k != "filter"}
+        trials = [("parse_blocks", lambda: parse_blocks(rec, None, to, kw.get("filter"), **kwp), lambda: rec.calls)]
+    else:
+        trials = [("parse_blocks", lambda: parse_blocks(rec, to=to, **kw), lambda: rec.calls)]
     if text is not None:
         st = RecordingStream(text)
         trials.append(("read_csv", lambda: read_csv(st, sep=sep, to=to, **kw), lambda: st.reads))
@@ -731,7 +764,8 @@ def run(tier, seed, model_ok, translator, search=False):
                 "both orientations, zero rows, no columns at all (name and destination rows only), destination cells with doubled blanks / tabs / other "
                 "whitespace, column names differing only in letter case, padding, comments after the names) interleaved with metadata, directives, "
                 "template rows, comments, late `key:` rows and blank lines with payload, with and without blank separators, "
-                "25 % with a read filter; 40 % with the reader's fixer argument given (a ParseFixer subclass or an instance of it, "
+                "25 % with a read filter; `to` also passed positionally in the documented order; parse_blocks is handed the caller's own "
+                "row lists, which must be unchanged afterwards — also with short data rows and a fixer that pads them; 40 % with the reader's fixer argument given (a ParseFixer subclass or an instance of it, "
                 "strict_types False / True x stop_on_errors 0 / 1); the three readers of a case are consumed one after the other (30 %), in lock-step (40 %) "
                 "or staggered (a reader started after k blocks of another, 30 %); plus a row-count ladder (a table of 64 … 8193 rows "
                 "with missing numbers in every quick run, 60 … 20000 in thorough); each through parse_blocks (text / native cells), read_csv (StringIO; half of the texts "
@@ -763,6 +797,15 @@ def run(tier, seed, model_ok, translator, search=False):
             fx = plan.get("fixer")
             if fx and not fx["strict_types"]:
                 rows = drop_utc_offsets(rows)
+            n_cut = 0
+            if api == "parse_blocks" and not native and i < n and rng.random() < 0.35:
+                # short data rows + a fixer that does not stop on errors, the three forms one after the other over the
+                # caller's own row lists (pdtable / jsondata first, cellgrid last)
+                plan = dict(plan, mode="sequential", fixer={"strict_types": True, "stop": False, "as": rng.choice(["class", "instance"])})
+                plan.pop("order", None), plan.pop("k", None)
+                fx = plan["fixer"]
+                n_cut = shorten_rows(rng, rows, tables)
+                out.count("short data rows with a lenient fixer (rows cut: %s)" % ("some" if n_cut else "none"))
             fixer_kind = "strict" if not fx or fx["stop"] else "lenient"
             text = xlsx = None
             tables4 = [(0, st, k, nm, un) for st, k, nm, un in tables]
@@ -803,7 +846,12 @@ def run(tier, seed, model_ok, translator, search=False):
                 case["sheets"] = [grid_to_json(sh) for sh in sheets]
             case["plan"] = plan
             results = read_forms(api, src, filt_py, plan)
+            if api == "parse_blocks" and grid_to_json(rows) != case["rows"]:
+                out.fail("parse_blocks: reading changed the caller's own rows", case, grid_to_json(rows), case["rows"], key="caller_rows")
+                rows = c02.common_rows_from_json(case["rows"])
             out.count("readers:" + plan["mode"])
+            if plan.get("positional"):
+                out.count("`to` passed positionally")
             out.count("fixer:" + ("default" if not fx else "%s strict_types=%s stop_on_errors=%s" % (
                 fx["as"], fx["strict_types"], fx["stop"])))
             nontrivial = any(k.startswith("col:") for k in kinds) and any(k.startswith("rows:") and k != "rows:0" for k in kinds)
@@ -900,8 +948,8 @@ def replay(rep):
         api = inp.get("api", "parse_blocks")
         filt_py = bc.py_filter(inp.get("filter"))
         tables = [tuple(t) if len(t) >= 4 and isinstance(t[3], str) else (0,) + tuple(t) for t in inp.get("tables", [])]
-        sheets = [rows] if "sheets" not in inp else [c02.common_rows_from_json(sh) for sh in inp["sheets"]]
-        sheets_in = [list(sh) for sh in sheets]
+        sheets = [[list(r) for r in rows]] if "sheets" not in inp else [c02.common_rows_from_json(sh) for sh in inp["sheets"]]
+        sheets_in = [[list(r) for r in sh] for sh in sheets]
         tmp = tempfile.mkdtemp(prefix="c07r-")
         try:
             plan_r = inp.get("plan") or {"mode": "sequential"}
@@ -917,7 +965,10 @@ def replay(rep):
                 sheets = write_workbook(src, sheets)
             else:
                 src = rows
+            snapshot = grid_to_json(rows)
             results = read_forms(api, src, filt_py, plan_r)
+            if api == "parse_blocks" and grid_to_json(rows) != snapshot:
+                out.fail("parse_blocks: reading changed the caller's own rows", dict(inp), grid_to_json(rows), snapshot, key="caller_rows")
             if results["pdtable"][0] == "ok" and not results["_issues"]["pdtable"]:
                 oracle(out, dict(inp), api, sheets, tables, filt_py, results)
             # the other routing of the same rows: what the reader was fed, handed to parse_blocks directly (a workbook or
